@@ -20,31 +20,38 @@ Lemma dpc_nearest_refuted_w :
   qdist2 w13_p (recon Qops w13_T w13_q) = 1.
 Proof. vm_compute. repeat split. Qed.
 
-(* DESIGN 4 row 12 (pinned text): two non-conductive domains; the weights come from the last interface scanned *)
+(* DESIGN 4 row 12: two non-conductive domains; the weights come from the last interface scanned *)
 Definition w12_T1 : @itri Q := ((qv 0 0 0, qv 1 0 0, qv 0 1 0), (0, 1, 2)%nat).
 Definition w12_T2 : @itri Q := ((qv 0 0 (-5), qv 4 0 (-5), qv 0 1 (-5)), (3, 4, 5)%nat).
 Definition w12_g : @geometry Q := [(0, [(0%nat, [[w12_T1]])]); (0, [(1%nat, [[w12_T2]])])].
 Definition w12_p : @vec Q := qv (1 # 4) (1 # 4) 1.
 
-Lemma geom_alphas_pinned_refuted_w :
-  let st := dist_point_geom_pinned Qops w12_p w12_g qzero in
+Lemma geom_alphas_refuted_w :
+  let st := dist_point_geom Qops w12_p w12_g qzero in
   gs_near st = Some (0, 0, 0)%nat /\ gs_d st = Some 1 /\
   gs_al st = qv (11 # 16) (1 # 16) (1 # 4) /\
   dist_point_triangle Qops w12_p (fst w12_T1) qzero = DOk 1 (qv (1 # 2) (1 # 4) (1 # 4)) true.
 Proof. vm_compute. repeat split. Qed.
 
-(* the repaired code on the same input *)
+(* the variant keeping the minimum's weights, on the same input *)
 Lemma geom_alphas_repaired_w :
-  let st := dist_point_geom Qops w12_p w12_g qzero in
+  let st := dist_point_geom_repaired Qops w12_p w12_g qzero in
   gs_near st = Some (0, 0, 0)%nat /\ gs_d st = Some 1 /\ gs_al st = qv (1 # 2) (1 # 4) (1 # 4).
 Proof. vm_compute. repeat split. Qed.
 
-(* a row of Head2EEGMat on this geometry *)
+(* a row of Head2EEGMat on this geometry: on the right triangle, summing to one, but with the stale weights *)
 Lemma head2eeg_row_example :
-  head2eeg_row Qops w12_g w12_p = Some [(0%nat, 1 # 2); (1%nat, 1 # 4); (2%nat, 1 # 4)].
+  head2eeg_row Qops w12_g w12_p = Some [(0%nat, 11 # 16); (1%nat, 1 # 16); (2%nat, 1 # 4)].
 Proof. vm_compute. reflexivity. Qed.
 
 (* label grouping: points labelled 7 3 7 9 with weights 1 2 3 4 -> three sensors *)
 Lemma weights_matrix_example :
   weights_matrix Qops [7; 3; 7; 9]%nat [1; 2; 3; 4] = (3%nat, [[1; 0; 3; 0]; [0; 2; 0; 0]; [0; 0; 0; 4]]).
 Proof. vm_compute. reflexivity. Qed.
+
+(* declared in the other order the nearest boundary is scanned last and the weights are the right ones *)
+Definition w12_g' : @geometry Q := [(0, [(1%nat, [[w12_T2]])]); (0, [(0%nat, [[w12_T1]])])].
+Lemma geom_alphas_other_order_w :
+  let st := dist_point_geom Qops w12_p w12_g' qzero in
+  gs_near st = Some (0, 0, 0)%nat /\ gs_d st = Some 1 /\ gs_al st = qv (1 # 2) (1 # 4) (1 # 4).
+Proof. vm_compute. repeat split. Qed.
